@@ -21,7 +21,8 @@ Record rfile := { f_name : string; f_imports : list (string * string); f_decls :
 (** what the schema calls for after the change, per resolver file *)
 Record live := { l_file : string; l_methods : list (string * string) (* receiver struct, method *);
                  l_structs : list string (* generated resolver struct types *);
-                 l_access : list string (* accessor methods on the root Resolver *) }.
+                 l_access : list string (* accessor methods on the root Resolver *);
+                 l_root : bool (* single-file layout: the file also gets the root resolver type emitted again *) }.
 
 Definition is_method (recv name : string) (d : decl) : bool :=
   match d_kind d with KMethod r n => String.eqb r recv && String.eqb n name | _ => false end.
@@ -38,6 +39,9 @@ Definition copied (lv : list live) (d : decl) : bool :=
       existsb (fun l => existsb (fun m => String.eqb (fst m) r && String.eqb (snd m) n) (l_methods l)) lv
       || (String.eqb r "Resolver" && existsb (fun l => existsb (String.eqb n) (l_access l)) lv)
   | KType n => existsb (fun l => existsb (String.eqb n) (l_structs l)) lv
+               (* the root type, while it still is the bare declaration the template emits (MarkEmptyStructCopied) *)
+               || (existsb l_root lv && String.eqb (d_src d) ("type " ++ n ++ " struct{}") && String.eqb (d_rawdoc d) ""
+                   && String.eqb n "Resolver")
   | _ => false
   end.
 
